@@ -3,7 +3,7 @@ K = 'github.com/ProjectSerenity/firefly/kernel'
 B = 'github.com/ProjectSerenity/firefly/kbuild'
 
 PROP = {'pkg': 'github.com/ProjectSerenity/firefly/kernel/mm/pmm',
- 'tests': [{'name': 'TestVerifC02', 'checks_quick': 60000, 'checks_thorough': 300000}],
+ 'tests': [{'name': 'TestVerifC02', 'checks_quick': 200000, 'checks_thorough': 5000000}],
  'rule': 'memory maps and kernel placements as in C01 (incl. sub-page regions, kernel covering a region); n early '
          'allocations up to exhaustion + 5. Oracle: each frame wholly inside available RAM, outside the kernel, '
          'strictly ascending; nothing after out-of-memory; replay from reset state identical; real hand-over marks '
